@@ -644,7 +644,7 @@ package desync
 //@   safety C19
 //@   checks alloc
 //@   requires $consumed >= 0
-//@   modifies d.advance, $consumed, $rp
+//@   modifies d.advance, $consumed, $rp, $wn
 //@   ensures $consumed >= old($consumed) && ($consumed == old($consumed) || $consumed < 1<<40)
 //# a decoded table or goodbye list is never longer than the input that was read for it
 //@   ensures r1 == nil && is(r0, FormatTable) ==> 40 * len(as(r0, FormatTable).Items) <= $consumed - old($consumed)
@@ -828,7 +828,20 @@ package desync
 //@       $w[old($wn)] == as(v, FormatIndex).Size && $w[old($wn)+8] == as(v, FormatIndex).Type
 //@   ensures @C04 r1 == nil && is(v, FormatTable) && as(v, FormatTable).Size == 18446744073709551615 && as(v, FormatTable).Type == CaFormatTable ==> \
 //@       tableAt($w, $wid, old($wn), as(v, FormatTable).Items) && r0 == 56 + 40*len(as(v, FormatTable).Items) && $wn == old($wn) + r0
+//# C13: number of bytes written per element, in terms of its content (the size field a writer must put into the header)
+//@   ensures @C13 r1 == nil && is(v, FormatEntry) ==> r0 == 64
+//@   ensures @C13 r1 == nil && is(v, FormatUser) ==> r0 == 16 + len(as(v, FormatUser).Name) + 1
+//@   ensures @C13 r1 == nil && is(v, FormatGroup) ==> r0 == 16 + len(as(v, FormatGroup).Name) + 1
+//@   ensures @C13 r1 == nil && is(v, FormatXAttr) ==> r0 == 16 + len(as(v, FormatXAttr).NameAndValue) + 1
+//@   ensures @C13 r1 == nil && is(v, FormatSELinux) ==> r0 == 16 + len(as(v, FormatSELinux).Label) + 1
+//@   ensures @C13 r1 == nil && is(v, FormatFilename) ==> r0 == 16 + len(as(v, FormatFilename).Name) + 1
+//@   ensures @C13 r1 == nil && is(v, FormatSymlink) ==> r0 == 16 + len(as(v, FormatSymlink).Target) + 1
+//@   ensures @C13 r1 == nil && is(v, FormatDevice) ==> r0 == 32
+//@   ensures @C13 r1 == nil && is(v, FormatPayload) ==> r0 == 16 + rdlen(as(v, FormatPayload).Data)
+//@   ensures @C13 r1 == nil && is(v, FormatGoodbye) ==> r0 == 16 + 24 * len(as(v, FormatGoodbye).Items)
+//@   ensures @C13 r1 == nil ==> $wn == old($wn) + r0
 //@   loop 1: invariant $wn >= old($wn) && (forall j int :: j < old($wn) ==> $w[j] == old($w[j]) && $wid[j] == old($wid[j]))
+//@   loop 1: invariant @C13 n == 16 + 24 * $i && $wn == old($wn) + n
 //@   loop 2: invariant @C04 n == 16 + 40*$i && $wn == old($wn) + n && $w[old($wn)] == t.Size && $w[old($wn)+8] == t.Type && \
 //@       (forall k int :: 0 <= k && k < $i ==> $w[old($wn)+16+40*k] == t.Items[k].Offset && $wid[old($wn)+24+40*k] == t.Items[k].Chunk) && \
 //@       (forall j int :: j < old($wn) ==> $w[j] == old($w[j]) && $wid[j] == old($wid[j]))
@@ -1321,3 +1334,60 @@ package desync
 //@   oncall LSet: requires $arg0 == pjoin(fs.Root, n.Name)
 //@   oncall Chmod: requires $arg0 == pjoin(fs.Root, n.Name)
 //@   oncall Chtimes: requires $arg0 == pjoin(fs.Root, n.Name)
+
+// ---------------------------------------------------------------------------- C13: well-formed catar
+
+//# bst lays a sorted list out as a complete binary search tree. e is the height: the list is empty, or has between
+//# 2^(e-1) (last level holds one node) and 2^e - 1 (perfect tree) elements; p = 2^(e-1).
+//@ func bst
+//@   prop C13
+//@   nochecks bounds@out[i]
+//@   requires len(in) == 0 || (e >= 1 && e <= 40 && pow2(e-1) - 1 <= len(in) && len(in) <= 2*pow2(e-1) - 1)
+//@   modifies mem(out)
+//# the split index is inside the list and both halves satisfy the precondition again with height e-1 (unbounded);
+//# termination: the list gets strictly shorter
+//@   assert@after:bst true
+//@   oncall bst: requires len($arg0) < len(in)
+//@   ensures true
+
+//@ func makeGoodbyeBST
+//@   prop C13
+//# e = floor(log2(n)) + 1 is computed in floating point (math.Log2): trusted (n < 2^42 since a slice fits the address space)
+//@   assume@before:bst len(in) == 0 || ($a3 >= 1 && $a3 <= 40 && pow2($a3 - 1) <= len(in) && len(in) < pow2($a3))
+//# sort.Slice calls its comparison with valid indices
+//@   lit 1: requires 0 <= i && i < len(in) && 0 <= j && j < len(in)
+//@   ensures len(r0) == len(in)
+
+//# size field of an element = number of bytes its encoding takes (casync readers skip by it)
+//@ spec func hdrSize(v interface{}) int = ite(is(v, FormatEntry), as(v, FormatEntry).Size, ite(is(v, FormatXAttr), as(v, FormatXAttr).Size, \
+//@     ite(is(v, FormatFilename), as(v, FormatFilename).Size, ite(is(v, FormatSymlink), as(v, FormatSymlink).Size, ite(is(v, FormatDevice), as(v, FormatDevice).Size, \
+//@     ite(is(v, FormatPayload), as(v, FormatPayload).Size, ite(is(v, FormatGoodbye), as(v, FormatGoodbye).Size, 0 - 1)))))))
+//@ spec func hdrType(v interface{}) int = ite(is(v, FormatEntry), as(v, FormatEntry).Type, ite(is(v, FormatXAttr), as(v, FormatXAttr).Type, \
+//@     ite(is(v, FormatFilename), as(v, FormatFilename).Type, ite(is(v, FormatSymlink), as(v, FormatSymlink).Type, ite(is(v, FormatDevice), as(v, FormatDevice).Type, \
+//@     ite(is(v, FormatPayload), as(v, FormatPayload).Type, ite(is(v, FormatGoodbye), as(v, FormatGoodbye).Type, 0 - 1)))))))
+//@ spec func typeOf(v interface{}) int = ite(is(v, FormatEntry), CaFormatEntry, ite(is(v, FormatXAttr), CaFormatXAttr, ite(is(v, FormatFilename), CaFormatFilename, \
+//@     ite(is(v, FormatSymlink), CaFormatSymlink, ite(is(v, FormatDevice), CaFormatDevice, ite(is(v, FormatPayload), CaFormatPayload, ite(is(v, FormatGoodbye), CaFormatGoodbye, 0 - 2)))))))
+
+//@ func tar
+//@   prop C13 C07
+//@   safety none
+//@   requires $wn >= 0
+//@   modifies all, $wn, $w, $wid, $sawDone
+//@   ghost@recv:ctx.Done() $sawDone = true
+//# every element handed to the encoder carries its own type and a size field equal to the bytes its encoding takes
+//# (payload: the size field is 16 + the file size reported by the filesystem reader; that this equals the number of
+//# data bytes copied rests on the file not changing while it is packed)
+//@   assert@after:Encode hdrType($a0) == typeOf($a0) && ($r1 == nil && !is($a0, FormatPayload) ==> $r0 == hdrSize($a0)) && (is($a0, FormatPayload) ==> hdrSize($a0) == 16 + f.Size)
+//# goodbye element: header size covers all items; the last item is the tail marker whose offset is the distance back to
+//# the start of the directory's entry (n bytes were written for this directory so far) and whose size is that of the goodbye element
+//@   assert@before:Encode is($a0, FormatGoodbye) ==> len(as($a0, FormatGoodbye).Items) >= 1 && as($a0, FormatGoodbye).Size == 16 + 24 * len(as($a0, FormatGoodbye).Items) && \
+//@       as($a0, FormatGoodbye).Items[len(as($a0, FormatGoodbye).Items)-1].Hash == CaFormatGoodbyeTailMarker && \
+//@       as($a0, FormatGoodbye).Items[len(as($a0, FormatGoodbye).Items)-1].Offset == n && \
+//@       as($a0, FormatGoodbye).Items[len(as($a0, FormatGoodbye).Items)-1].Size == 16 + 24 * len(as($a0, FormatGoodbye).Items)
+//# the byte counter is exact: it equals what was appended to the output
+//@   ensures err == nil ==> n == $wn - old($wn)
+//@   ensures $wn >= old($wn)
+//@   loop 1: invariant $wn >= old($wn) && n == $wn - old($wn)
+//@   loop 2: invariant $wn >= old($wn) && n == $wn - old($wn)
+//@   loop 3: invariant $wn >= old($wn) && n == $wn - old($wn)
+//@   loop 4: invariant $wn >= old($wn) && n == $wn - old($wn)
